@@ -608,6 +608,84 @@ theorem clean_cyMemory (mr : Bool) (codec : Nat → Bytes → Option Bytes) (hc 
   exact clean_cyMemLoop mr codec hc wantCrc b hlen (b.length + 1) 0 [] (by omega) (by omega)
     (by push_cast; omega) (by intro o ho; cases ho)
 
+theorem clean_cyMemLoopN (mr : Bool) (codec : Nat → Bytes → Option Bytes) (hc : CodecBounded codec)
+    (wantCrc : Bool) (b : Bytes) (hlen : (b.length : Int) < 4611686018427387904) :
+    ∀ (fuel : Nat) pos acc, 0 ≤ pos → pos ≤ (b.length : Int) → (fuel : Int) > (b.length : Int) - pos →
+    (∀ o ∈ acc, Clean o.fin) →
+    CleanMem (cyMemLoopN (Cfg.fixed mr) codec wantCrc b fuel pos acc) := by
+  intro fuel
+  induction fuel with
+  | zero => intro pos acc h0 h1 hf; omega
+  | succ n ih =>
+    intro pos acc h0 h1 hf hacc
+    have hrev : ∀ o ∈ acc.reverse, Clean o.fin := fun o ho => hacc o (List.mem_reverse.mp ho)
+    unfold cyMemLoopN
+    split
+    · exact ⟨clean_done, hrev⟩
+    · rename_i h12
+      have hl := sat_rdI32 (b := b) (pos := pos + 8) (by omega) (by omega)
+      cases hr : rdI32 b (pos + 8) with
+      | exc e => exact ⟨clean_exc e, hrev⟩
+      | fault f => rw [hr] at hl; exact hl.elim
+      | ok length =>
+        rw [hr] at hl
+        simp only
+        split
+        · exact ⟨clean_exc _, hrev⟩
+        · rename_i h14
+          cases hsr : ss (pos + 12 + length) with
+          | exc e => exact ⟨clean_exc e, hrev⟩
+          | fault f =>
+            have hs := sat_ss (pos + 12 + length) (by have := hl.1; have := hl.2; omega)
+            rw [hsr] at hs; exact hs.elim
+          | ok sliceEnd =>
+            have hs := sat_ss (pos + 12 + length) (by have := hl.1; have := hl.2; omega)
+            rw [hsr] at hs
+            have hse : sliceEnd = pos + 12 + length := hs
+            simp only
+            split
+            · exact ⟨clean_done, hrev⟩
+            · rename_i hfit
+              have hs : True := trivial
+              have hm := sat_rdI8 (b := b) (pos := if (Cfg.fixed mr).magicRel = true then pos + 16 else 16)
+                (by split <;> omega) (by split <;> omega)
+              cases hmr : rdI8 b (if (Cfg.fixed mr).magicRel = true then pos + 16 else 16) with
+              | exc e => exact ⟨clean_exc e, hrev⟩
+              | fault f => rw [hmr] at hm; exact hm.elim
+              | ok magic =>
+                simp only
+                have hsl : (((b.drop pos.toNat).take (sliceEnd - pos).toNat).length : Int) < 4611686018427387904 := by
+                  have := take_drop_length_le b pos.toNat (sliceEnd - pos).toNat
+                  omega
+                have hout : Clean (if magic < 2 then
+                      cyLegacyBatch (Cfg.fixed mr) codec wantCrc magic ((b.drop pos.toNat).take (sliceEnd - pos).toNat)
+                    else cyDefaultBatch (Cfg.fixed mr) codec wantCrc ((b.drop pos.toNat).take (sliceEnd - pos).toNat)).fin := by
+                  split
+                  · exact clean_cyLegacyBatch mr codec hc wantCrc magic _ hsl
+                  · exact clean_cyDefaultBatch mr codec hc wantCrc _ hsl
+                generalize (if magic < 2 then
+                      cyLegacyBatch (Cfg.fixed mr) codec wantCrc magic ((b.drop pos.toNat).take (sliceEnd - pos).toNat)
+                    else cyDefaultBatch (Cfg.fixed mr) codec wantCrc ((b.drop pos.toNat).take (sliceEnd - pos).toNat)) = out at hout ⊢
+                have hacc' : ∀ o ∈ out :: acc, Clean o.fin := by
+                  intro o ho
+                  rcases List.mem_cons.mp ho with h | h
+                  · rw [h]; exact hout
+                  · exact hacc o h
+                split
+                · exact ih _ _ (by omega) (by omega) (by omega) hacc'
+                · rename_i e hne
+                  refine ⟨?_, fun o ho => hacc' o (List.mem_reverse.mp ho)⟩
+                  intro f hf'
+                  apply hout f
+                  simpa using hf'
+
+theorem clean_cyMemoryN (mr : Bool) (codec : Nat → Bytes → Option Bytes) (hc : CodecBounded codec)
+    (wantCrc : Bool) (b : Bytes) (hlen : (b.length : Int) < 4611686018427387904) :
+    CleanMem (cyMemoryN (Cfg.fixed mr) codec wantCrc b) := by
+  unfold cyMemoryN
+  exact clean_cyMemLoopN mr codec hc wantCrc b hlen (b.length + 1) 0 [] (by omega) (by omega)
+    (by push_cast; omega) (by intro o ho; cases ho)
+
 /-! ## Python primitives never fault -/
 
 theorem sat_pyIndex (b : Bytes) (i : Int) :
@@ -1079,6 +1157,12 @@ theorem entry_clean_py (e : Entry) (he : e.isPython = true) (mr : Bool)
     rcases hx with hx | ⟨o, ho, hx⟩
     · rw [hx]; exact h.1
     · rw [← hx]; exact h.2 o ho
+  | pyN =>
+    have h := clean_pyMemory mr codec wantCrc b
+    simp only [Entry.ends, pyMemoryN, List.mem_cons, List.mem_map] at hx
+    rcases hx with hx | ⟨o, ho, hx⟩
+    · rw [hx]; exact h.1
+    · rw [← hx]; exact h.2 o ho
   | pyV pos =>
     simp only [Entry.ends, List.mem_singleton] at hx; rw [hx]
     unfold pyVarint
@@ -1086,6 +1170,7 @@ theorem entry_clean_py (e : Entry) (he : e.isPython = true) (mr : Bool)
   | cyD => cases he
   | cyL m => cases he
   | cyM => cases he
+  | cyN => cases he
   | cyV pos => cases he
 
 theorem entry_clean (e : Entry) (mr : Bool) (codec : Nat → Bytes → Option Bytes) (hc : CodecBounded codec)
@@ -1105,6 +1190,12 @@ theorem entry_clean (e : Entry) (mr : Bool) (codec : Nat → Bytes → Option By
     rcases hx with hx | ⟨o, ho, hx⟩
     · rw [hx]; exact h.1
     · rw [← hx]; exact h.2 o ho
+  | cyN =>
+    have h := clean_cyMemoryN mr codec hc wantCrc b hlen
+    simp only [Entry.ends, List.mem_cons, List.mem_map] at hx
+    rcases hx with hx | ⟨o, ho, hx⟩
+    · rw [hx]; exact h.1
+    · rw [← hx]; exact h.2 o ho
   | cyV pos =>
     simp only [Entry.ends, List.mem_singleton] at hx; rw [hx]
     unfold cyVarintPy
@@ -1118,6 +1209,7 @@ theorem entry_clean (e : Entry) (mr : Bool) (codec : Nat → Bytes → Option By
   | pyD => exact entry_clean_py _ rfl mr codec wantCrc b x hx
   | pyL m => exact entry_clean_py _ rfl mr codec wantCrc b x hx
   | pyM => exact entry_clean_py _ rfl mr codec wantCrc b x hx
+  | pyN => exact entry_clean_py _ rfl mr codec wantCrc b x hx
   | pyV pos => exact entry_clean_py _ rfl mr codec wantCrc b x hx
 
 /-! ## checksum validation -/
